@@ -2,3 +2,9 @@ import Props.C14
 #print axioms Bycycle.C14_fit_no_stale_state
 #print axioms Bycycle.C14_shorthand
 #print axioms Bycycle.C14_reduce
+#print axioms Bycycle.C14_history_independence
+#print axioms Bycycle.C14_settings_history
+#print axioms Bycycle.C14_edges
+#print axioms Bycycle.C14_attr
+#print axioms Bycycle.C14_failed_fit
+#print axioms Bycycle.C14_table_kept
